@@ -2795,6 +2795,17 @@ impl<Front: SocketHandler> ConnectionH2<Front> {
                 return MuxResult::Continue;
             }
             self.expect_write = None;
+            // The frame that was half-written is complete: answers to control
+            // frames received meanwhile (see `expect_zero_write`) go out now,
+            // on a frame boundary, before any other stream frame.
+            if !self.zero.storage.is_empty() {
+                if self.flush_zero_to_socket() {
+                    self.expect_write = Some(H2StreamId::Zero);
+                    self.ensure_tls_flushed();
+                    return MuxResult::Continue;
+                }
+                self.readiness.interest.insert(Ready::READABLE);
+            }
             if (kawa.is_terminated() || kawa.is_error())
                 && kawa.is_completed()
                 && !Self::handle_1xx_reset(kawa, stream_state, &mut endpoint)
@@ -3597,8 +3608,17 @@ impl<Front: SocketHandler> ConnectionH2<Front> {
         // new control frames. Don't reset the timeout for control frame
         // writes (SETTINGS ACK, PING response, WINDOW_UPDATE) — only
         // application-data writes should reset it.
-        if let Some(H2StreamId::Zero) = self.expect_write {
+        // Also due when nothing is marked but the buffer holds an answer that
+        // `expect_zero_write` queued behind a half-written stream frame whose
+        // stream has been retired since (`remove_dead_stream` clears the marker).
+        let zero_due = match self.expect_write {
+            Some(H2StreamId::Zero) => true,
+            Some(H2StreamId::Other { .. }) => false,
+            None => !self.zero.storage.is_empty(),
+        };
+        if zero_due {
             if self.flush_zero_to_socket() {
+                self.expect_write = Some(H2StreamId::Zero);
                 self.ensure_tls_flushed();
                 return Some(MuxResult::Continue);
             }
@@ -4692,7 +4712,7 @@ impl<Front: SocketHandler> ConnectionH2<Front> {
                 // Keep READABLE so in-flight request bodies can still be received
                 // during the drain window. Only remove READABLE in the final GOAWAY
                 // (via `goaway()`).
-                self.expect_write = Some(H2StreamId::Zero);
+                self.expect_zero_write();
                 self.readiness.arm_writable();
                 MuxResult::Continue
             }
@@ -4774,6 +4794,20 @@ impl<Front: SocketHandler> ConnectionH2<Front> {
     /// Returns `true` if the socket stalled (WouldBlock / zero-length write),
     /// meaning the caller should stop writing and wait for the next writable event.
     /// Returns `false` when the buffer has been fully drained.
+    /// Schedule the zero (control-frame) buffer for the next write.
+    ///
+    /// A stream frame that is only partly on the wire (`expect_write ==
+    /// Some(Other)`, the socket blocked in the middle of it) MUST be completed
+    /// first: flushing a SETTINGS ACK / PING ACK / GOAWAY now would put it
+    /// inside that frame's payload and desynchronise the peer's framing. In
+    /// that case the marker is left alone; `write_streams` flushes the zero
+    /// buffer as soon as the pending frame is complete.
+    fn expect_zero_write(&mut self) {
+        if !matches!(self.expect_write, Some(H2StreamId::Other { .. })) {
+            self.expect_write = Some(H2StreamId::Zero);
+        }
+    }
+
     fn flush_zero_to_socket(&mut self) -> bool {
         while !self.zero.storage.is_empty() {
             let (size, status) = self.socket.socket_write(self.zero.storage.data());
@@ -5816,7 +5850,7 @@ impl<Front: SocketHandler> ConnectionH2<Front> {
 
         self.readiness.interest.insert(Ready::WRITABLE);
         self.readiness.interest.remove(Ready::READABLE);
-        self.expect_write = Some(H2StreamId::Zero);
+        self.expect_zero_write();
         self.readiness.signal_pending_write();
         MuxResult::Continue
     }
@@ -5873,7 +5907,7 @@ impl<Front: SocketHandler> ConnectionH2<Front> {
         };
         self.readiness.interest.insert(Ready::WRITABLE);
         self.readiness.interest.remove(Ready::READABLE);
-        self.expect_write = Some(H2StreamId::Zero);
+        self.expect_zero_write();
         self.readiness.signal_pending_write();
         MuxResult::Continue
     }
